@@ -559,6 +559,86 @@ def define_workload(name, leaf_body):
     return eval(expr, ns), ns
 
 
+# ---------------------------------------------------------------------------- generated programs and edit histories
+class Program:
+    """A random call tree of tasks t0 (root) .. tn: task i returns [K_i + x, child_0(x), child_1(x), ...]; K_i is the
+    task's version (editing task i = changing K_i, which changes its source text, its hash and its result).
+    check_valid is 'shallow' or 'full' per task. Every value of K appears in the result, so a stale replay of any
+    subtree is visible in the root's result."""
+
+    def __init__(self, kids, shallow):
+        self.kids, self.shallow = kids, shallow          # kids[i] = list of child indices (> i), shallow[i] bool
+        self.n = len(kids)
+
+    @staticmethod
+    def demo():
+        # top(shallow) -> [mid(shallow) -> leaf, side]
+        return Program([[1, 3], [2], [], []], [True, True, False, False])
+
+    @staticmethod
+    def random(rng):
+        depth = rng.choice([3, 3, 4])
+        kids, level = [[]], [0]
+        levels = {0: 0}
+        for i in range(1, 9):
+            parents = [j for j in range(len(kids)) if levels[j] < depth - 1 and len(kids[j]) < 2]
+            if not parents:
+                break
+            # grow depth first, then add siblings
+            deepest = max(levels[j] for j in parents)
+            par = rng.choice([j for j in parents if levels[j] == deepest] if max(levels.values()) < depth - 1 else parents)
+            kids.append([])
+            kids[par].append(len(kids) - 1)
+            levels[len(kids) - 1] = levels[par] + 1
+            if len(kids) >= rng.randint(4, 8) and max(levels.values()) >= depth - 1:
+                break
+        shallow = [rng.random() < 0.6 for _ in kids]
+        shallow[0] = True if rng.random() < 0.8 else shallow[0]
+        return Program(kids, shallow)
+
+    def descendants(self, i):
+        out = []
+        for k in self.kids[i]:
+            out += [k] + self.descendants(k)
+        return out
+
+    def source(self, versions):
+        parts = ["from redun import task\nEXECUTED = []\n"]
+        for i in reversed(range(self.n)):
+            calls = "".join(f", t{k}(x)" for k in self.kids[i])
+            cv = ', check_valid="shallow"' if self.shallow[i] else ""
+            parts.append(f'@task(name="t{i}", namespace="rvp"{cv})\ndef t{i}(x):\n    EXECUTED.append({i})\n'
+                         f'    return [{versions[i]} + x{calls}]\n')
+        return "".join(parts)
+
+    def describe(self):
+        return {"kids": self.kids, "shallow": self.shallow}
+
+
+def run_program(prog, versions, dbfile):
+    """One `redun run` of t0(1) with the given task versions: fresh Scheduler, same database file.
+    Returns (status, result, executed task indices, scheduler)."""
+    import importlib.util
+    quiet()
+    _WL["n"] += 1
+    if "dir" not in _WL:
+        _WL["dir"] = tempfile.mkdtemp(prefix="rv_wl_")
+    path = os.path.join(_WL["dir"], f"rvp_{os.getpid()}_{_WL['n']}.py")
+    with open(path, "w") as f:
+        f.write(prog.source(versions))
+    spec = importlib.util.spec_from_file_location(f"rvp_{_WL['n']}", path)
+    mod = importlib.util.module_from_spec(spec)
+    sys.modules[spec.name] = mod
+    spec.loader.exec_module(mod)
+    s = make_scheduler(dbfile)
+    try:
+        with contextlib.redirect_stderr(io.StringIO()):
+            r = s.run(mod.t0(1))
+        return "ok", r, sorted(set(mod.EXECUTED)), s
+    except Exception as e:  # noqa
+        return "died", type(e).__name__, sorted(set(mod.EXECUTED)), s
+
+
 def make_scheduler(dbfile, retries=3):
     from redun import Scheduler
     from redun.config import Config
